@@ -5,7 +5,7 @@
    vm_compute, each replayed on the implementation by the harness) together
    with the restricted positive theorems [_partial]. *)
 From Coq Require Import ZArith List Bool.
-From Mpc Require Import Lang.Fold Lang.FoldProof.
+From Mpc Require Import Lang.Fold Lang.FoldProof Lang.FoldClassProof.
 Import ListNotations.
 Open Scope Z_scope.
 
@@ -109,3 +109,44 @@ Theorem C12_fold_eq_circuit_partial_rsh : forall k N ml tr x y a cnt,
     (N = 32 -> tbits (ctype c) = 32) /\ smallc c.
 Proof. exact fold_rsh_nonneg. Qed.
 Print Assumptions C12_fold_eq_circuit_partial_rsh.
+
+(* ---- the proved region as ONE executable predicate ----
+   Fold.fold_ok_class op k n a b (operator, operand kind, declared width, the two
+   operand values; for shifts b = literal count) is evaluated by run_c12 on every
+   harness case and recomputed in Go by the harness (the correspondence check
+   compares the two), and any oracle failure inside it is reported under the key
+   c12:inside-proved-class:...  The theorem: for EVERY operator (+ - * / % & | ^
+   &^ << >> < <= > >= == != && ||), kind (intN, uintN, bool), width n >= 1
+   (small path n <= 64 and big path n > 64) and operand values the classifier
+   accepts, the typed operands T(a) / -T(|a|) exist, evalConst answers (no error,
+   no panic), and the folded constant has the circuit's result kind, exactly the
+   circuit's output bits as its wires, MinBits <= the declared width, and for a
+   declared width of 32 or >= 64 exactly the declared width. *)
+Theorem C12_fold_ok_class_sound : forall op k n a b, fold_ok_class op k n a b = true ->
+  exists l r c, typedv k n a = Ok l /\ rhs op k n b = Ok r /\ evalConst op l r = Ok c /\
+    goodt c (target op k n a b).
+Proof. exact fold_ok_class_sound. Qed.
+Print Assumptions C12_fold_ok_class_sound.
+
+(* On fold_exact_class (= fold_ok_class and result bool, or n = 32, or n >= 64)
+   the triple the rest of the program sees — (kind, Type.Bits, wires) — IS the
+   circuit's (kind, width, output bits): the strict statement of C12. *)
+Theorem C12_fold_exact_class_sound : forall op k n a b, fold_exact_class op k n a b = true ->
+  exists l r c, typedv k n a = Ok l /\ rhs op k n b = Ok r /\ evalConst op l r = Ok c /\
+    seen c = target op k n a b /\ tmin (ctype c) <= snd (fst (target op k n a b)).
+Proof. exact fold_exact_class_sound. Qed.
+Print Assumptions C12_fold_exact_class_sound.
+
+(* unary minus of T(a) / -T(|a|): every intN/uintN, every width, every value
+   accepted by neg_ok_class (all non-negative a; negative a for n = 32, 64, > 64) *)
+Theorem C12_neg_ok_class_sound : forall k n a, neg_ok_class k n a = true ->
+  exists l c, typed k n a = Ok l /\ unaryMinus l = Ok c /\
+    good c k n (snd (circuit_neg k n (a mod 2 ^ n))).
+Proof. exact neg_ok_class_sound. Qed.
+Print Assumptions C12_neg_ok_class_sound.
+
+(* ! on a boolean constant *)
+Theorem C12_not_sound : forall b, exists c, unaryNot (CB b) = Ok c /\
+  seen c = (KBool, 1, 1 - (if b then 1 else 0)).
+Proof. exact not_sound. Qed.
+Print Assumptions C12_not_sound.
